@@ -7,7 +7,7 @@ use bincode::{Decode, Encode};
 use crate::errors::{Result, VibratoError};
 use crate::utils::FromU32;
 
-const CATE_IDSET_BITS: usize = 18;
+pub(crate) const CATE_IDSET_BITS: usize = 18;
 const CATE_IDSET_MASK: u32 = (1 << CATE_IDSET_BITS) - 1;
 const BASE_ID_BITS: usize = 8;
 const BASE_ID_MASK: u32 = (1 << BASE_ID_BITS) - 1;
